@@ -32,19 +32,22 @@ static void run_modes(const V *expect, long end_of_value, int numeric_compare)
 	char *buf = mc_guard_buf(TL + 1);
 	memcpy(buf, T, TL);
 	buf[TL] = 0;
-	static const int modes[3] = {0, JSON_TOKENER_STRICT, JSON_TOKENER_STRICT | JSON_TOKENER_ALLOW_TRAILING_CHARS};
-	for (int m = 0; m < 3; m++)
+	/* the three modes, each also combined with JSON_TOKENER_VALIDATE_UTF8 (which changes nothing for these texts) */
+	static const int modes[6] = {0, JSON_TOKENER_STRICT, JSON_TOKENER_STRICT | JSON_TOKENER_ALLOW_TRAILING_CHARS, JSON_TOKENER_VALIDATE_UTF8,
+	                             JSON_TOKENER_STRICT | JSON_TOKENER_VALIDATE_UTF8, JSON_TOKENER_STRICT | JSON_TOKENER_ALLOW_TRAILING_CHARS | JSON_TOKENER_VALIDATE_UTF8};
+	for (int mm = 0; mm < 6; mm++)
 	{
+		int m = mm % 3;
 		if (m == 2 && end_of_value < 0)
 			continue;
-		cur_mode = modes[m];
+		cur_mode = modes[mm];
 		for (int hist = 0; hist < 4; hist++)
 		{
 		/* the mode is a property of the tokener, not of one call: it must survive earlier use and
 		 * json_tokener_reset (hist 1: reset; 2: an abandoned partial text, reset; 3: a failed text, reset) */
 		cur_hist = hist;
 		struct json_tokener *tok = json_tokener_new();
-		json_tokener_set_flags(tok, modes[m]);
+		json_tokener_set_flags(tok, modes[mm]);
 		if (hist == 2)
 			json_object_put(json_tokener_parse_ex(tok, "[1,{\"a\":\"x", 11));
 		else if (hist == 3)
@@ -92,7 +95,7 @@ static void run_modes(const V *expect, long end_of_value, int numeric_compare)
 				{
 					char sig[64];
 					snprintf(sig, sizeof sig, "value-differs:%s", cur_kind);
-					mc_violation(sig, "mode %d parsed %.150s, expected %.150s", modes[m], sb_str(&d_got), sb_str(&d_exp));
+					mc_violation(sig, "mode %d parsed %.150s, expected %.150s", modes[mm], sb_str(&d_got), sb_str(&d_exp));
 				}
 			}
 			if (m == 2 && (long)end != end_of_value)
@@ -330,9 +333,10 @@ static int replay(const char *desc)
 		return -1;
 	cur_kind = "replay";
 	/* re-run the three modes and print what each does */
-	static const int modes[3] = {0, JSON_TOKENER_STRICT, JSON_TOKENER_STRICT | JSON_TOKENER_ALLOW_TRAILING_CHARS};
+	static const int modes[6] = {0, JSON_TOKENER_STRICT, JSON_TOKENER_STRICT | JSON_TOKENER_ALLOW_TRAILING_CHARS, JSON_TOKENER_VALIDATE_UTF8,
+	                             JSON_TOKENER_STRICT | JSON_TOKENER_VALIDATE_UTF8, JSON_TOKENER_STRICT | JSON_TOKENER_ALLOW_TRAILING_CHARS | JSON_TOKENER_VALIDATE_UTF8};
 	int bad = 0;
-	for (int m = 0; m < 3; m++)
+	for (int m = 0; m < 6; m++)
 	{
 		struct json_tokener *tok = json_tokener_new();
 		json_tokener_set_flags(tok, modes[m]);
